@@ -31,6 +31,8 @@ var apis = []api{
 	{Name: "crypto/x509.ParseCRL", Use: `_, _ = x509.ParseCRL(nil)`},
 	{Name: "strings.Title", Use: `_ = strings.Title("x")`},
 	{Name: "math/rand.Seed", Use: `rand.Seed(1)`},
+	// a "never use" deprecation (AlternativeAvailableSince == DeprecatedNeverUse): still gated by DeprecatedSince
+	{Name: "math/rand.Read", Use: `_, _ = rand.Read(make([]byte, 4))`},
 	{Name: "reflect.SliceHeader", Use: `_ = reflect.SliceHeader{}`},
 	{Name: "reflect.PtrTo", Use: `_ = reflect.PtrTo(reflect.TypeOf(0))`},
 	{Name: "runtime.GOROOT", Use: `_ = runtime.GOROOT()`},
